@@ -165,9 +165,9 @@ def min_degree(mesh, mode):
 def plan(ctx):
     rng = ctx.rng
     quick = ctx.tier == 'quick'
-    n_mesh = 24 if quick else 120
-    n_rounds = 4 if quick else 24            # rounds over the 30 option combinations
-    per_case_cap = 9.0 if quick else 60.0
+    n_mesh = 28 if quick else 120
+    n_rounds = 5 if quick else 24            # rounds over the 30 option combinations
+    per_case_cap = 12.0 if quick else 60.0
     meshes, cases = {}, []
     combos = all_kw()
     for k in range(n_mesh):
@@ -198,8 +198,16 @@ def plan(ctx):
                     continue       # a vertex without neighbours: outside the property
                 # a hop count larger than the graph diameter adds nothing new;
                 # still allowed, but prefer meshes where hop matters
-                if cost_estimate(mesh, kw, cache) <= per_case_cap:
-                    fit.append(mid)
+                if cost_estimate(mesh, kw, cache) > per_case_cap:
+                    continue
+                if kw['moment_matrix']:
+                    wk = ('well', mid, kw['mode'], kw['n_hop'])
+                    if wk not in cache:
+                        inc, nb, P = G.neighbourhoods(mesh, kw['mode'], kw['n_hop'])
+                        cache[wk] = well_conditioned(nb, P)
+                    if not cache[wk]:
+                        continue   # some neighbourhood does not span space (with margin)
+                fit.append(mid)
             if not fit:
                 unplaced += 1
                 continue
@@ -222,6 +230,10 @@ def plan(ctx):
                 if mesh['min_degree'][kw['mode']] < 1:
                     kw['mode'] = 'nodal'
                     kw['use_effective_volume'] = True
+                if kw['moment_matrix']:
+                    inc, nb, P = G.neighbourhoods(mesh, kw['mode'], kw['n_hop'])
+                    if not well_conditioned(nb, P):
+                        kw['moment_matrix'] = False
                 t = rng.choice([0.5, 1.0, 3.0])
                 alpha = t / max(diam2, 1) ** 0.5 if kern == 'exp' else 2 * t / max(diam2, 1)
                 kw['kernel'] = kern
@@ -458,6 +470,38 @@ def prepare_cases(ctx, meshes, cases):
     return res, vols
 
 
+MODELLED = {
+    'femio/signal_processor.py': [
+        'calculate_spatial_gradient_adjacency_matrices', 'calculate_nodal_spatial_gradients',
+        'calculate_elemental_spatial_gradients', 'calculate_data_diff_adjs', 'calculate_data_adjs',
+        'calculate_norm_adj', 'calculate_tensor_power', 'multiply_sparse_tensors',
+        '_operate_sparse_list', '_inverse_tensors', '_dot_ndarray_sparse',
+        '_calculate_inner_product_adj', 'calculate_distance_kernel_adj', 'convert_nodal2elemental',
+        'convert_elemental2nodal'],
+    'femio/graph_processor.py': [
+        'calculate_n_hop_adj', 'calculate_adjacency_matrix_node', 'calculate_adjacency_matrix_element',
+        'calculate_incidence_matrix'],
+}
+
+
+def source_hashes():
+    """sha256 of the source text of every function the hand model mirrors
+    (recorded in the evidence; the tie itself is the correspondence)"""
+    import ast
+    out = {}
+    for rel, names in MODELLED.items():
+        try:
+            src = (lib.REPO / rel).read_text()
+            tree = ast.parse(src)
+        except (OSError, SyntaxError) as e:
+            out[rel] = 'unreadable: ' + str(e)[:100]
+            continue
+        for node in ast.walk(tree):
+            if isinstance(node, ast.FunctionDef) and node.name in names:
+                out[f'{rel}:{node.name}'] = lib.sha(ast.get_source_segment(src, node) or '')
+    return out
+
+
 def describe(mesh, c):
     return {'mesh': mesh['descr'], 'n_nodes': len(mesh['node_ids']), 'n_elems': len(mesh['conn']),
             'options': kw_key(c['kw']), 'alpha': c['kw'].get('alpha')}
@@ -500,6 +544,7 @@ def main(ctx):
         'moment-matrix cases are generated only where every vertex neighbourhood spans space with '
         'margin det(M0) >= (tr(M0)/3)^3/50 (unweighted normalised moment matrix, exact)',
     ]
+    ctx.sources = source_hashes()
     # 1. proofs
     proof_ok, log = ctx.build_props('C15/Props.v')
     if not proof_ok:
@@ -651,12 +696,22 @@ def main(ctx):
     # 5. violations (smallest failing input per signature first)
     failures.sort(key=lambda f: f[0])
     impl_bad_cases = {id(f[3]) for f in failures if f[1] == 'impl-violation'}
+    per_check, suppressed = {}, {}
     for size, kind, mesh, c, expected, observed, theorem, check in failures:
         found = kind == 'impl-violation' or id(c) in impl_bad_cases
+        # at most 3 replay files per (kind, check): the smallest failing inputs
+        k = f'{kind}/{check}'
+        per_check[k] = per_check.get(k, 0) + 1
+        if per_check[k] > 3:
+            suppressed[k] = suppressed.get(k, 0) + 1
+            continue
         ctx.violation(kind, replay_case(mesh, c), expected, observed, theorem,
                       found_input=found, signature=signature(mesh, c, check),
                       what=f"{check} fails for {kw_key(c['kw'])} on a {mesh['etype']} mesh "
                            f"({len(mesh['node_ids'])} nodes)")
+    if suppressed:
+        ctx.notes['further_failing_cases_not_written_as_replay_files'] = suppressed
+    ctx.notes['failing_cases_by_kind'] = per_check
     if not proof_ok and not failures:
         bad = [o['name'] for o in ctx.obligations if not o['discharged']]
         ctx.violation('proof-broken', {'theorems': bad}, 'Props.v compiles with stdlib axioms only',
